@@ -47,7 +47,7 @@ CHECK = dict(
         technique='runtime monitoring: position-keyed byte streams (byte at offset o = prng(conn, dir, o)) over real TCP-loopback / Unix-domain '
                   'photon socket streams, per-call count / errno / deadline / EOF monitors, a kernel-level ledger kept by an interposed syscall shim '
                   '(recv/send/recvmsg/sendmsg/read defined in the harness executable) that also injects legal short counts, EINTR and spurious EAGAIN, '
-                  'a stuck detector gated by the ledger and by poll()/SIOCOUTQ/FIONREAD, under ASan+UBSan (exact-size heap iovecs), plain and TSan builds',
+                  'a stuck detector gated by the ledger and by poll()/SIOCOUTQ/FIONREAD, under ASan+UBSan (exact-size heap iovecs), plain and TSan builds; plus a burst probe: 17-48 readers of one vCPU blocked, one pass of raw writes without photon scheduling, then silence',
         level_text='Held on the seeded executions actually run: every byte returned by every read-side call is compared with the byte written at that stream '
                    'offset, every call\'s return value / errno is checked against the count contracts (full count, bytes so far at EOF, 1..n, ETIMEDOUT only for a '
                    'timed call and not before its deadline), EOF must come exactly at the written length, and a blocked call is reported only when the ledger and '
